@@ -25,7 +25,8 @@ CHECKS = {
              '(virtual latencies, seeded event-loop schedules) to the real pjrpc dispatcher (sync/async, def and async '
              'def methods); every wire document is checked against a reference request document and every caller '
              'outcome against direct invocation of the function body. Sampled, not exhaustive.'
-             ' Families: single operations in two notations, batches in two notations, and 2-3 callers sharing one '
+             ' Families: single operations in two notations, batches in two notations (hand-built batches put together '
+             'through the constructor, strict=False, append and extend), and 2-3 callers sharing one '
              'async client with overlapping calls; every (client, dispatcher, flavour, id generator, strict) '
              'configuration is forced systematically.',
         note='Trusted: the reference request-document validator and the direct-invocation oracle (pjsim/ref, '
@@ -125,7 +126,11 @@ CHECKS = {
              'with a reference chain, for successes, every failure class, notifications, batches and rejected documents; '
              'async chains suspend and interleave under seeded schedules.'
              ' Each run delivers 1-3 documents to the same long-lived dispatcher; asynchronous middlewares are coroutine '
-             'functions or plain functions returning the awaitable.',
+             'functions or plain functions returning the awaitable. A deadline middleware (asyncio.wait_for around '
+             'the rest of the chain, answering itself when the virtual deadline expires) is combined with methods that '
+             'hang: the cancellation must end the inner chain where it stands and the middleware\'s own reply is what is '
+             'sent. Concurrent family: 2-3 documents (half of the runs the same document, same ids) are in flight on one '
+             'asynchronous dispatcher at the same time, each delivery judged on its own records.',
         note='Trusted: ref_chain (Appendix F.3). Middlewares / handlers do not raise.',
         technique='deterministic simulation: instrumented callee chain, per-element event-log oracle vs reference chain',
     ),
